@@ -1,8 +1,23 @@
 // C06 correspondence harness: the real fcppt integer helpers, instantiated for every type the
 // translator (tools/cxx2lean.py) translates, behind the line protocol of lean/FcpptModel/Drv/C06.lean.
+// The second-generation instantiations are grouped behind VERIF_C06_NO_<GROUP> (BOOL, NAMED, INTERVAL, STATIC, MASKS, CASTS,
+// DIV2, ENUM2): props/c06.py probes each group with a syntax-only compile before the harness is built and switches a
+// group off (reporting it as a broken correspondence) when a change in /repo makes it uncompilable — the other
+// functions keep their harness, so that a failing input can still be shown for them.
 #include "common/vh.hpp"
 
 #include <fcppt/bit/mask.hpp>
+#include <fcppt/bit/mask_c.hpp>
+#include <fcppt/bit/shifted_mask_c.hpp>
+#include <fcppt/cast/promote_int.hpp>
+#include <fcppt/cast/safe_numeric.hpp>
+#include <fcppt/cast/size.hpp>
+#include <fcppt/cast/to_signed.hpp>
+#include <fcppt/cast/to_unsigned.hpp>
+#include <fcppt/enum/size.hpp>
+#include <fcppt/math/ceil_div_static.hpp>
+#include <fcppt/math/interval_distance.hpp>
+#include <fcppt/tuple/object.hpp>
 #include <fcppt/bit/shifted_mask.hpp>
 #include <fcppt/bit/test.hpp>
 #include <fcppt/cast/truncation_check.hpp>
@@ -85,6 +100,11 @@ constexpr i128 hi = static_cast<i128>(std::numeric_limits<T>::max());
 
 using fn = std::function<std::string(i128, i128, i128)>;
 std::map<std::string, fn> table;
+// second generation: four-argument functions, argument-free (compile-time) functions, one object in every parameter
+using fn4 = std::function<std::string(i128, i128, i128, i128)>;
+std::map<std::string, fn4> table4;
+std::map<std::string, std::function<std::string()>> table0;
+std::map<std::string, std::function<std::string(i128)>> alias_table;
 
 template <typename T> char const *tn();
 template <> char const *tn<std::uint8_t>() { return "u8"; }
@@ -143,8 +163,35 @@ void reg_unsigned()
 }
 
 template <typename T>
+void reg_alias()
+{
+  // the same object bound to every (reference) parameter
+  std::string const t = tn<T>();
+  alias_table["clamp_" + t] = [](i128 a) {
+    T const x = static_cast<T>(a);
+    return show(fcppt::math::clamp<T>(x, x, x));
+  };
+  alias_table["diff_" + t] = [](i128 a) {
+    T const x = static_cast<T>(a);
+    return show(fcppt::math::diff<T>(x, x));
+  };
+  if constexpr (std::is_unsigned_v<T>)
+  {
+    alias_table["mod_" + t] = [](i128 a) {
+      T const x = static_cast<T>(a);
+      return show(fcppt::math::mod<T>(x, x));
+    };
+    alias_table["bit_test_" + t] = [](i128 a) {
+      T const x = static_cast<T>(a);
+      return show(fcppt::bit::test(x, fcppt::bit::mask<T>{x}));
+    };
+  }
+}
+
+template <typename T>
 void reg_all()
 {
+  reg_alias<T>();
   std::string const t = tn<T>();
   table["clamp_" + t] = [](i128 v, i128 l, i128 h) {
     return show(fcppt::math::clamp<T>(static_cast<T>(v), static_cast<T>(l), static_cast<T>(h)));
@@ -166,11 +213,136 @@ void reg_div()
 {
   std::string const t = tn<T>();
   table["div_" + t] = [](i128 a, i128 b, i128) {
-    if constexpr (std::is_signed_v<T>)
-      if (b == -1 && a == lo<T>)
+    // the quotient is computed in the promoted type: INT_MIN / -1 only overflows there
+    if constexpr (std::is_signed_v<promoted<T>>)
+      if (b == -1 && a == lo<promoted<T>>)
         return std::string{"signed-overflow"};
     return show(fcppt::math::div(static_cast<T>(a), static_cast<T>(b)));
   };
+  alias_table["div_" + t] = [](i128 a) {
+    T const x = static_cast<T>(a);
+    return show(fcppt::math::div(x, x));
+  };
+}
+
+// math::div with different operand types: the usual arithmetic conversions pick the type the division is done in
+template <typename L, typename R>
+void reg_div_mixed()
+{
+  using C = decltype(L{} / R{});
+  table[std::string("div_") + tn<L>() + "_" + tn<R>()] = [](i128 a, i128 b, i128) {
+    if constexpr (std::is_signed_v<C>)
+      if (static_cast<i128>(static_cast<C>(static_cast<R>(b))) == -1 && static_cast<i128>(static_cast<C>(static_cast<L>(a))) == lo<C>)
+        return std::string{"signed-overflow"};
+    return show(fcppt::math::div(static_cast<L>(a), static_cast<R>(b)));
+  };
+}
+
+// math::interval_distance.  For int and wider signed types a difference that is not representable is undefined; which
+// differences are evaluated depends on the control flow, which is NOT replicated here: whenever any difference of two of
+// the four operands is not representable the line answers "guard" (the driver applies the same rule), everything else
+// runs the real function under UBSan.
+template <typename T>
+void reg_interval()
+{
+  table4[std::string("interval_distance_") + tn<T>()] = [](i128 a1, i128 b1, i128 a2, i128 b2) {
+    using P = promoted<T>;
+    if constexpr (std::is_signed_v<P> && sizeof(P) == sizeof(T))
+    {
+      i128 const v[4] = {a1, b1, a2, b2};
+      for (i128 const x : v)
+        for (i128 const y : v)
+          if (x - y < lo<P> || x - y > hi<P>)
+            return std::string{"guard"};
+    }
+    using tup = fcppt::tuple::object<T, T>;
+    return show(fcppt::math::interval_distance<T>(tup{static_cast<T>(a1), static_cast<T>(b1)}, tup{static_cast<T>(a2), static_cast<T>(b2)}));
+  };
+}
+
+template <typename D, typename S>
+void reg_size()
+{
+  std::string const n = std::string(tn<D>()) + "_" + tn<S>();
+  table["size_" + n] = [](i128 a, i128, i128) { return show(fcppt::cast::size<D>(static_cast<S>(a))); };
+  if constexpr (sizeof(D) >= sizeof(S))
+    table["safe_numeric_" + n] = [](i128 a, i128, i128) { return show(fcppt::cast::safe_numeric<D>(static_cast<S>(a))); };
+}
+
+template <typename D>
+void reg_size_u()
+{
+  reg_size<D, std::uint8_t>();
+  reg_size<D, std::uint16_t>();
+  reg_size<D, std::uint32_t>();
+  reg_size<D, std::uint64_t>();
+}
+
+template <typename D>
+void reg_size_i()
+{
+  reg_size<D, std::int8_t>();
+  reg_size<D, std::int16_t>();
+  reg_size<D, std::int32_t>();
+  reg_size<D, std::int64_t>();
+}
+
+template <typename T>
+void reg_casts()
+{
+  std::string const t = tn<T>();
+  table["promote_int_" + t] = [](i128 a, i128, i128) {
+    auto const r = fcppt::cast::promote_int(static_cast<T>(a));
+    static_assert(std::is_same_v<decltype(r), promoted<T> const>);
+    return show(r);
+  };
+  if constexpr (std::is_unsigned_v<T>)
+    table["to_signed_" + t] = [](i128 a, i128, i128) { return show(fcppt::cast::to_signed(static_cast<T>(a))); };
+  else
+    table["to_unsigned_" + t] = [](i128 a, i128, i128) { return show(fcppt::cast::to_unsigned(static_cast<T>(a))); };
+}
+
+template <typename T, T M>
+void reg_mask_c()
+{
+  table0[std::string("mask_c_") + tn<T>() + "_" + str(static_cast<i128>(M))] = [] {
+    // evaluated at run time on purpose: a change that makes the function unusable in a constant expression (or undefined
+    // for some instantiation) must still leave a harness that builds, so that the failing call can be shown
+    fcppt::bit::mask<T> const m{fcppt::bit::mask_c<T, M>()};
+    return show(m.get());
+  };
+}
+
+template <typename T, fcppt::bit::shift_count B>
+void reg_shifted_mask_c()
+{
+  table0[std::string("shifted_mask_c_") + tn<T>() + "_" + str(static_cast<i128>(B))] = [] {
+    fcppt::bit::mask<T> const m{fcppt::bit::shifted_mask_c<T, B>()};
+    return show(m.get());
+  };
+}
+
+// ceil_div_static: a compile-time table (the pairs the generator uses)
+std::map<std::string, std::string> static_table;
+template <typename T, T A, T B>
+void reg_static()
+{
+  static_table[std::string("ceil_div_static_") + tn<T>() + " " + str(static_cast<i128>(A)) + " " + str(static_cast<i128>(B))] =
+      "some " + show(fcppt::math::ceil_div_static<T, A, B>::value);
+}
+
+template <typename T, T... A>
+void reg_static_row()
+{
+  // every dividend with the divisors 1, 2, 3, 7, 2^16, max-1, max
+  constexpr T mx = std::numeric_limits<T>::max();
+  (reg_static<T, A, 1>(), ...);
+  (reg_static<T, A, 2>(), ...);
+  (reg_static<T, A, 3>(), ...);
+  (reg_static<T, A, 7>(), ...);
+  (reg_static<T, A, 65536>(), ...);
+  (reg_static<T, A, mx - 1>(), ...);
+  (reg_static<T, A, mx>(), ...);
 }
 
 enum class eu8_1 : std::uint8_t { a, fcppt_maximum = a };
@@ -183,6 +355,12 @@ enum class eu32_3 : std::uint32_t { a, b, c, fcppt_maximum = c };
 enum class eu32_70000 : std::uint32_t { a, fcppt_maximum = 69999 };
 enum class eu64_3 : std::uint64_t { a, b, c, fcppt_maximum = c };
 enum class eu64_5000000000 : std::uint64_t { a, fcppt_maximum = 4999999999ULL };
+// enums whose underlying type is signed (size type: the unsigned counterpart); ei32_*: the default underlying type
+enum class ei8_3 : std::int8_t { a, b, c, fcppt_maximum = c };
+enum class ei8_128 : std::int8_t { a, fcppt_maximum = 127 };
+enum class ei32_3 { a, b, c, fcppt_maximum = c };
+enum class ei32_70000 { a, fcppt_maximum = 69999 };
+enum class ei32_2147483648 { a, fcppt_maximum = 2147483647 };
 
 template <typename E, typename V>
 std::string from_int(i128 v)
@@ -204,13 +382,207 @@ void reg_from_int()
   table["from_int_u32_" + v] = [](i128 x, i128 size, i128) {
     return size == 3 ? from_int<eu32_3, V>(x) : size == 70000 ? from_int<eu32_70000, V>(x) : std::string{"bad-op"};
   };
+#ifndef VERIF_C06_NO_ENUM2
+  table["from_int_i8_" + v] = [](i128 x, i128 size, i128) {
+    return size == 3 ? from_int<ei8_3, V>(x) : size == 128 ? from_int<ei8_128, V>(x) : std::string{"bad-op"};
+  };
+  table["from_int_i32_" + v] = [](i128 x, i128 size, i128) {
+    return size == 3 ? from_int<ei32_3, V>(x) : size == 70000 ? from_int<ei32_70000, V>(x) : size == 2147483648LL ? from_int<ei32_2147483648, V>(x) : std::string{"bad-op"};
+  };
+#endif
   table["from_int_u64_" + v] = [](i128 x, i128 size, i128) {
     return size == 3 ? from_int<eu64_3, V>(x) : size == 5000000000LL ? from_int<eu64_5000000000, V>(x) : std::string{"bad-op"};
   };
 }
 
+template <typename E>
+void reg_enum_size(char const *const u, i128 const maximum)
+{
+  static_assert(std::is_same_v<typename fcppt::enum_::size<E>::value_type, std::make_unsigned_t<std::underlying_type_t<E>>>);
+  static_table[std::string("enumsize ") + u + " " + str(maximum)] = str(static_cast<i128>(fcppt::enum_::size<E>::value));
+}
+
+template <typename T>
+void reg_second()
+{
+#ifndef VERIF_C06_NO_INTERVAL
+  reg_interval<T>();
+#endif
+#ifndef VERIF_C06_NO_CASTS
+  reg_casts<T>();
+#endif
+}
+
+// truncation_check on integral types that are not the fixed-width typedefs
+template <typename D, typename S>
+void reg_trunc_named(char const *const d, char const *const s)
+{
+  table[std::string("truncation_check_") + d + "_" + s] = [](i128 a, i128, i128) {
+    auto const r = fcppt::cast::truncation_check<D>(static_cast<S>(a));
+    return r.has_value() ? "some " + str(static_cast<i128>(r.get_unsafe())) : std::string{"none"};
+  };
+}
+
+void init2()
+{
+  static_assert(std::is_signed_v<char> && sizeof(wchar_t) == 4 && std::is_signed_v<wchar_t> && sizeof(long long) == 8);
+#ifndef VERIF_C06_NO_NAMED
+  reg_trunc_named<long long, std::int32_t>("ll", "i32");
+  reg_trunc_named<std::int32_t, long long>("i32", "ll");
+  reg_trunc_named<long long, std::uint64_t>("ll", "u64");
+  reg_trunc_named<unsigned long long, std::int64_t>("ull", "i64");
+  reg_trunc_named<std::uint64_t, unsigned long long>("u64", "ull");
+  reg_trunc_named<std::int64_t, long long>("i64", "ll");
+  reg_trunc_named<unsigned long long, long long>("ull", "ll");
+  reg_trunc_named<std::uint8_t, long long>("u8", "ll");
+  reg_trunc_named<char, std::int32_t>("ch", "i32");
+  reg_trunc_named<char, std::uint8_t>("ch", "u8");
+  reg_trunc_named<std::uint8_t, char>("u8", "ch");
+  reg_trunc_named<std::int8_t, char>("i8", "ch");
+  reg_trunc_named<wchar_t, std::int64_t>("wc", "i64");
+  reg_trunc_named<wchar_t, std::uint32_t>("wc", "u32");
+  reg_trunc_named<std::uint16_t, wchar_t>("u16", "wc");
+  reg_trunc_named<char8_t, std::int16_t>("c8", "i16");
+  reg_trunc_named<char16_t, std::int32_t>("c16", "i32");
+  reg_trunc_named<char16_t, char32_t>("c16", "c32");
+  reg_trunc_named<char32_t, std::int64_t>("c32", "i64");
+  reg_trunc_named<std::int16_t, char16_t>("i16", "c16");
+#endif
+  // bool is an (unsigned) integral type
+#ifndef VERIF_C06_NO_BOOL
+  reg_trunc_named<bool, std::uint8_t>("b", "u8");
+  reg_trunc_named<bool, std::uint16_t>("b", "u16");
+  reg_trunc_named<bool, std::uint32_t>("b", "u32");
+  reg_trunc_named<bool, std::uint64_t>("b", "u64");
+  reg_trunc_named<bool, std::int8_t>("b", "i8");
+  reg_trunc_named<bool, std::int16_t>("b", "i16");
+  reg_trunc_named<bool, std::int32_t>("b", "i32");
+  reg_trunc_named<bool, std::int64_t>("b", "i64");
+  reg_trunc_named<std::uint8_t, bool>("u8", "b");
+  reg_trunc_named<std::uint64_t, bool>("u64", "b");
+  reg_trunc_named<std::int8_t, bool>("i8", "b");
+  reg_trunc_named<std::int32_t, bool>("i32", "b");
+  reg_trunc_named<std::int64_t, bool>("i64", "b");
+#endif
+  reg_second<std::uint8_t>();
+  reg_second<std::uint16_t>();
+  reg_second<std::uint32_t>();
+  reg_second<std::uint64_t>();
+  reg_second<std::int8_t>();
+  reg_second<std::int16_t>();
+  reg_second<std::int32_t>();
+  reg_second<std::int64_t>();
+#ifndef VERIF_C06_NO_DIV2
+  reg_div<std::uint8_t>();
+  reg_div<std::int8_t>();
+  reg_div<std::uint16_t>();
+  reg_div<std::int16_t>();
+  reg_div_mixed<std::int32_t, std::uint32_t>();
+  reg_div_mixed<std::uint32_t, std::int32_t>();
+  reg_div_mixed<std::int8_t, std::uint8_t>();
+  reg_div_mixed<std::uint8_t, std::int64_t>();
+  reg_div_mixed<std::int64_t, std::uint64_t>();
+  reg_div_mixed<std::uint16_t, std::int32_t>();
+  reg_div_mixed<std::int16_t, std::uint64_t>();
+  reg_div_mixed<std::uint64_t, std::int8_t>();
+  reg_div_mixed<std::int32_t, std::int64_t>();
+  reg_div_mixed<std::uint32_t, std::uint64_t>();
+#endif
+#ifndef VERIF_C06_NO_CASTS
+  reg_size_u<std::uint8_t>();
+  reg_size_u<std::uint16_t>();
+  reg_size_u<std::uint32_t>();
+  reg_size_u<std::uint64_t>();
+  reg_size_i<std::int8_t>();
+  reg_size_i<std::int16_t>();
+  reg_size_i<std::int32_t>();
+  reg_size_i<std::int64_t>();
+#endif
+#ifndef VERIF_C06_NO_MASKS
+  reg_mask_c<std::uint8_t, 0>();
+  reg_mask_c<std::uint8_t, 1>();
+  reg_mask_c<std::uint8_t, 5>();
+  reg_mask_c<std::uint8_t, 255>();
+  reg_mask_c<std::uint16_t, 0>();
+  reg_mask_c<std::uint16_t, 256>();
+  reg_mask_c<std::uint16_t, 65535>();
+  reg_mask_c<std::uint32_t, 0>();
+  reg_mask_c<std::uint32_t, 65536>();
+  reg_mask_c<std::uint32_t, 4294967295U>();
+  reg_mask_c<std::uint64_t, 0>();
+  reg_mask_c<std::uint64_t, 4294967296ULL>();
+  reg_mask_c<std::uint64_t, 18446744073709551615ULL>();
+  reg_shifted_mask_c<std::uint8_t, 0>();
+  reg_shifted_mask_c<std::uint8_t, 3>();
+  reg_shifted_mask_c<std::uint8_t, 7>();
+  reg_shifted_mask_c<std::uint16_t, 0>();
+  reg_shifted_mask_c<std::uint16_t, 8>();
+  reg_shifted_mask_c<std::uint16_t, 15>();
+  reg_shifted_mask_c<std::uint32_t, 0>();
+  reg_shifted_mask_c<std::uint32_t, 16>();
+  reg_shifted_mask_c<std::uint32_t, 31>();
+  reg_shifted_mask_c<std::uint64_t, 0>();
+  reg_shifted_mask_c<std::uint64_t, 32>();
+  reg_shifted_mask_c<std::uint64_t, 63>();
+#endif
+#ifndef VERIF_C06_NO_STATIC
+  reg_static_row<std::uint32_t, 0, 1, 2, 3, 6, 7, 8, 65535, 65536, 65537, 2147483648U, 4294967294U, 4294967295U>();
+  reg_static_row<std::uint64_t, 0, 1, 2, 3, 6, 7, 8, 65535, 65536, 65537, 4294967296ULL, 9223372036854775808ULL, 18446744073709551614ULL,
+                 18446744073709551615ULL>();
+  reg_enum_size<eu8_1>("u8", 0);
+  reg_enum_size<eu8_3>("u8", 2);
+  reg_enum_size<eu8_255>("u8", 254);
+  reg_enum_size<eu16_3>("u16", 2);
+  reg_enum_size<eu16_257>("u16", 256);
+  reg_enum_size<eu16_65535>("u16", 65534);
+  reg_enum_size<eu32_3>("u32", 2);
+  reg_enum_size<eu32_70000>("u32", 69999);
+  reg_enum_size<eu64_3>("u64", 2);
+  reg_enum_size<eu64_5000000000>("u64", 4999999999LL);
+  reg_enum_size<ei8_3>("i8", 2);
+  reg_enum_size<ei8_128>("i8", 127);
+  reg_enum_size<ei32_3>("i32", 2);
+  reg_enum_size<ei32_70000>("i32", 69999);
+  reg_enum_size<ei32_2147483648>("i32", 2147483647);
+#endif
+#ifndef VERIF_C06_NO_DIV2
+  // narrow ceil_div_signed: quotient and remainder are computed in int (never overflows) and cast back
+  table["ceil_div_signed_i8"] = [](i128 a, i128 b, i128) {
+    return show(fcppt::math::ceil_div_signed<std::int8_t>(static_cast<std::int8_t>(a), static_cast<std::int8_t>(b)));
+  };
+  table["ceil_div_signed_i16"] = [](i128 a, i128 b, i128) {
+    return show(fcppt::math::ceil_div_signed<std::int16_t>(static_cast<std::int16_t>(a), static_cast<std::int16_t>(b)));
+  };
+  alias_table["ceil_div_signed_i8"] = [](i128 a) {
+    std::int8_t const x = static_cast<std::int8_t>(a);
+    return show(fcppt::math::ceil_div_signed<std::int8_t>(x, x));
+  };
+  alias_table["ceil_div_signed_i16"] = [](i128 a) {
+    std::int16_t const x = static_cast<std::int16_t>(a);
+    return show(fcppt::math::ceil_div_signed<std::int16_t>(x, x));
+  };
+#endif
+  alias_table["ceil_div_u32"] = [](i128 a) {
+    std::uint32_t const x = static_cast<std::uint32_t>(a);
+    return show(fcppt::math::ceil_div<std::uint32_t>(x, x));
+  };
+  alias_table["ceil_div_u64"] = [](i128 a) {
+    std::uint64_t const x = static_cast<std::uint64_t>(a);
+    return show(fcppt::math::ceil_div<std::uint64_t>(x, x));
+  };
+  alias_table["ceil_div_signed_i32"] = [](i128 a) {
+    std::int32_t const x = static_cast<std::int32_t>(a);
+    return show(fcppt::math::ceil_div_signed<std::int32_t>(x, x));
+  };
+  alias_table["ceil_div_signed_i64"] = [](i128 a) {
+    std::int64_t const x = static_cast<std::int64_t>(a);
+    return show(fcppt::math::ceil_div_signed<std::int64_t>(x, x));
+  };
+}
+
 void init()
 {
+  init2();
   reg_trunc_all<std::uint8_t>();
   reg_trunc_all<std::uint16_t>();
   reg_trunc_all<std::uint32_t>();
@@ -251,41 +623,74 @@ void init()
   };
 }
 
-// ---- 128-bit oracles for the full 16-bit squares (selfcheck) -----------------------------------
-std::string oracle(std::string const &f, i128 a, i128 b)
+// ---- the full 16-bit squares (selfcheck): the real function against an oracle in wider arithmetic, compared as numbers
+// (no strings in the inner loop: 2^32 evaluations per function).  An optional result is encoded as value, or `none_code`.
+constexpr long long none_code = 1LL << 40;
+
+template <typename T>
+long long enc(T const v) { return static_cast<long long>(v); }
+template <typename T>
+long long enc(fcppt::optional::object<T> const &o) { return o.has_value() ? static_cast<long long>(o.get_unsafe()) : none_code; }
+
+long long floor_div(long long const x, long long const y)
 {
-  if (f == "diff_u16" || f == "diff_i16")
-  {
-    i128 const d = a < b ? b - a : a - b;
-    // result converted back to the 16-bit type (modular)
-    if (f == "diff_u16") return str(d & 0xFFFF);
-    return str(static_cast<i128>(static_cast<std::int16_t>(static_cast<std::uint16_t>(d & 0xFFFF))));
-  }
-  if (f == "mod_u16")
-    return b == 0 ? "none" : "some " + str(a % b);
-  if (f == "truncation_check_i8_i16_pairs") return "";
-  return "?";
+  long long const q = x / y;
+  return (x % y != 0 && ((x < 0) != (y < 0))) ? q - 1 : q;
 }
 
-std::string selfcheck(std::string const &f, i128 expect)
+template <typename T, typename Impl, typename Oracle>
+std::string selfcheck_rows(i128 const alo, i128 const ahi, Impl const impl, Oracle const oracle)
 {
-  auto const it = table.find(f);
-  if (it == table.end())
+  long long const l = static_cast<long long>(lo<T>), h = static_cast<long long>(hi<T>);
+  if (alo < l || ahi > h)
     return "bad-op";
-  bool const sgn = f.find("_i16") != std::string::npos;
-  i128 const l = sgn ? -32768 : 0, h = sgn ? 32767 : 65535;
-  i128 n = 0;
-  for (i128 a = l; a <= h; ++a)
-    for (i128 b = l; b <= h; ++b)
+  long long n = 0;
+  for (long long a = static_cast<long long>(alo); a <= static_cast<long long>(ahi); ++a)
+    for (long long b = l; b <= h; ++b)
     {
-      std::string const got = it->second(a, b, 0);
-      std::string const want = oracle(f, a, b);
+      long long const got = enc(impl(static_cast<T>(a), static_cast<T>(b)));
+      long long const want = oracle(a, b);
       if (got != want)
-        return "bad " + str(a) + " " + str(b) + " got=" + got + " want=" + want;
+        return "bad " + str(a) + " " + str(b) + " got=" + str(got) + " want=" + str(want);
       ++n;
     }
-  (void)expect;
   return "ok " + str(n);
+}
+
+// rows [alo, ahi] of the square (all second operands); the full square is split over several lines
+std::string selfcheck(std::string const &f, i128 const alo, i128 const ahi)
+{
+  using u16 = std::uint16_t;
+  using i16 = std::int16_t;
+  auto const absdiff = [](long long a, long long b) { return a < b ? b - a : a - b; };
+  if (f == "diff_u16")
+    return selfcheck_rows<u16>(alo, ahi, [](u16 a, u16 b) { return fcppt::math::diff<u16>(a, b); },
+                               [&](long long a, long long b) { return absdiff(a, b) & 0xFFFF; });
+  if (f == "diff_i16")   // |a - b| can be 65535: converted back to int16_t (modular)
+    return selfcheck_rows<i16>(alo, ahi, [](i16 a, i16 b) { return fcppt::math::diff<i16>(a, b); },
+                               [&](long long a, long long b) { long long const d = absdiff(a, b) & 0xFFFF; return d >= 32768 ? d - 65536 : d; });
+  if (f == "mod_u16")
+    return selfcheck_rows<u16>(alo, ahi, [](u16 a, u16 b) { return fcppt::math::mod<u16>(a, b); },
+                               [](long long a, long long b) { return b == 0 ? none_code : a % b; });
+  if (f == "bit_test_u16")
+    return selfcheck_rows<u16>(alo, ahi, [](u16 a, u16 b) { return fcppt::bit::test(a, fcppt::bit::mask<u16>{b}); },
+                               [](long long a, long long b) { return static_cast<long long>((a & b) != 0); });
+#ifndef VERIF_C06_NO_DIV2
+  if (f == "div_u16")
+    return selfcheck_rows<u16>(alo, ahi, [](u16 a, u16 b) { return fcppt::math::div(a, b); },
+                               [](long long a, long long b) { return b == 0 ? none_code : a / b; });
+  if (f == "div_i16")    // computed in int: -32768 / -1 = 32768 is representable there
+    return selfcheck_rows<i16>(alo, ahi, [](i16 a, i16 b) { return fcppt::math::div(a, b); },
+                               [](long long a, long long b) { return b == 0 ? none_code : a / b; });
+  if (f == "ceil_div_signed_i16")   // the ceiling as minus the floor of the negated quotient; 32768 wraps to -32768
+    return selfcheck_rows<i16>(alo, ahi, [](i16 a, i16 b) { return fcppt::math::ceil_div_signed<i16>(a, b); },
+                               [](long long a, long long b) {
+                                 if (b == 0) return none_code;
+                                 long long const c = -floor_div(-a, b);
+                                 return c > 32767 ? c - 65536 : c;
+                               });
+#endif
+  return "bad-op";
 }
 
 std::vector<i128> ilist(std::string const &s)
@@ -305,12 +710,85 @@ std::vector<i128> ilist(std::string const &s)
   return r;
 }
 
+std::string handle2(std::vector<std::string> const &t, bool &done)
+{
+  done = true;
+  if (t[0] == "call" && t.size() == 2)
+  {
+    auto const it = table0.find(t[1]);
+    return it == table0.end() ? "bad-op" : it->second();
+  }
+  if ((t[0] == "call" && t.size() == 6) || (t[0] == "list4" && t.size() == 3))
+  {
+    auto const it = table4.find(t[1]);
+    if (it == table4.end())
+      return "bad-op";
+    if (t[0] == "call")
+      return it->second(parse(t[2]), parse(t[3]), parse(t[4]), parse(t[5]));
+    std::uint64_t h = vh::fnv_init;
+    auto const as = ilist(t[2]);
+    for (i128 a : as)
+      for (i128 b : as)
+        for (i128 c : as)
+          for (i128 d : as)
+            h = vh::fnv(h, it->second(a, b, c, d));
+    return "D " + vh::hex64(h);
+  }
+  if (t[0] == "alias" || t[0] == "aliasl" || t[0] == "aliasr")
+  {
+    auto const it = alias_table.find(t[1]);
+    if (it == alias_table.end())
+      return "bad-op";
+    if (t[0] == "alias" && t.size() == 3)
+      return it->second(parse(t[2]));
+    std::uint64_t h = vh::fnv_init;
+    if (t[0] == "aliasl" && t.size() == 3)
+    {
+      for (i128 a : ilist(t[2]))
+        h = vh::fnv(h, it->second(a));
+    }
+    else if (t[0] == "aliasr" && t.size() == 4)
+    {
+      for (i128 a = parse(t[2]); a <= parse(t[3]); ++a)
+        h = vh::fnv(h, it->second(a));
+    }
+    else
+      return "bad-op";
+    return "D " + vh::hex64(h);
+  }
+  if (t[0] == "static2" && t.size() == 4)
+  {
+    auto const it = static_table.find(t[1] + " " + t[2] + " " + t[3]);
+    return it == static_table.end() ? "bad-op" : it->second;
+  }
+  if (t[0] == "enumsize" && t.size() == 3)
+  {
+    auto const it = static_table.find("enumsize " + t[1] + " " + t[2]);
+    return it == static_table.end() ? "bad-op" : it->second;
+  }
+  done = false;
+  return "";
+}
+
 std::string handle(std::vector<std::string> const &t)
 {
+  if (t.size() < 2)
+    return "bad-op";
+  {
+    bool done = false;
+    std::string r = handle2(t, done);
+    if (done)
+      return r;
+  }
   if (t.size() < 3)
     return "bad-op";
   if (t[0] == "selfcheck" && t.size() == 3)
-    return selfcheck(t[1], parse(t[2]));
+  {
+    bool const sgn = t[1].find("_i16") != std::string::npos;
+    return selfcheck(t[1], sgn ? -32768 : 0, sgn ? 32767 : 65535);
+  }
+  if (t[0] == "selfcheck" && t.size() == 4)
+    return selfcheck(t[1], parse(t[2]), parse(t[3]));
   auto const it = table.find(t[1]);
   if (it == table.end())
     return "bad-op";
